@@ -1,6 +1,6 @@
 from .common import *
 from vlib import runner
-def combined(pid, tier, a, specs, trunc_specs, explanation, bounds, level='proof'):
+def combined(pid, tier, a, specs, trunc_specs, explanation, bounds, level='proof', cond_specs=()):
     """EXACT entries + TRUNC entries in one evidence file."""
     res = runner.Result(pid, tier); res.bounds = bounds
     if a is not None and a.only:
@@ -12,5 +12,11 @@ def combined(pid, tier, a, specs, trunc_specs, explanation, bounds, level='proof
         out = runner.run_sym(res, specs, o); runner.finish_sym(res, *out, o)
     if trunc_specs:
         runner.run_trunc(res, trunc_specs, o)
+    if cond_specs:
+        cs = list(cond_specs)
+        if a is not None and a.only:
+            import re
+            cs = [s for s in cs if re.search(a.only, s['src'] + ':' + ','.join(s['defs']))]
+        if cs: runner.run_cond(res, cs, o)
     runner.write_evidence(res, level, explanation, ASSUME, 'python3-vt /verif/check.py %s --tier %s' % (pid, tier), TRUSTED)
     return runner.conclude(res)
